@@ -54,3 +54,31 @@ def conformance(chk, sym, quick, nshards=8, drift_cap=150):
     cov[sym] = dict(strings_compared=len(evs), identical_to_model=sum(x.get("same", 0) for x in extras), drift=len(drift), drift_revalidated_through_reader=len(sample),
                     not_decodable_by_automaton=len(wrong), spaces=[dict(prefix=list(p), max_suffix=(lq if quick else lt), alphabet=list(alt or alpha)) for (p, lq, lt, alt) in spaces])
     return wrong[:400], sample
+
+
+def dims_conformance(chk, drift_cap=60):
+    """PDF417 shape chooser: calcDimensions for every number of data codewords 0..930 x level 0..8 against PDFDims (TraceEnc, sym pdfdims).
+    Returns (wrong, drift_sample) as lists of (m, lv)."""
+    cov = chk.cov.setdefault("encoder_model_conformance", {})
+    try:
+        binary = vlib.build_harness(chk.work, tags="verif verifenc", cmd="encdump")
+    except vlib.Inconclusive as e:
+        cov["pdfdims"] = dict(skipped="accessors do not build against this tree: " + str(e)[-300:])
+        return [], []
+    out = os.path.join(chk.work, "enc-pdfdims.ndjson")
+    p = subprocess.run([binary, "-sym", "pdfdims", "-out", out], capture_output=True, text=True, timeout=600)
+    if p.returncode != 0:
+        raise vlib.Inconclusive("encdump failed: " + p.stderr[-500:])
+    evs = vlib.read_ndjson(out)
+    os.remove(out)
+    shards = [evs[i::4] for i in range(4)]
+    acc, bad, st, tr, extras = vlib.validate_traces(chk.work, "TraceEnc", "TraceEnc.cfg", shards, heap="3g", timeout=3000, par=4, want_extra=True)
+    chk.cov["states"] += st
+    chk.cov["transitions"] += tr
+    wrong = [(b["event"]["m"], b["event"]["lv"]) for b in bad if b["why"] == "hl-wrong"]
+    drift = [(b["event"]["m"], b["event"]["lv"]) for b in bad if b["why"] == "drift"]
+    rng = random.Random(chk.rng.random())
+    sample = drift if len(drift) <= drift_cap else rng.sample(drift, drift_cap)
+    cov["pdfdims"] = dict(shapes_compared=len(evs), identical_to_model=sum(x.get("same", 0) for x in extras), drift=len(drift), drift_revalidated_through_reader=len(sample),
+                          violating_shape_rules=len(wrong))
+    return wrong[:120], sample
